@@ -259,6 +259,96 @@ def run_direct(case, ctx):
         ctx.nontrivial()
     ctx.label("empty_table", int(isinstance(t, S.Table) and len(t) == 0))
 
+# ---------------------------------------------------------------- directed: structural operations on tables with any names
+STRUCT_NAMES = ["a", "b", "a", "c", None, "A", "a b", "k", "a__1", "sum"]
+STRUCT_OPS = ["lshift_row", "lshift_rows", "lshift_table", "rshift_vec", "rshift_dict", "rshift_table", "slice", "mask", "transpose2"]
+
+
+@st.composite
+def struct_case(draw, tier="quick"):
+    k = draw(st.integers(1, 4))
+    n = draw(st.one_of(st.integers(0, 4), st.integers(1, 3)))
+    names = [draw(st.sampled_from(STRUCT_NAMES)) for _ in range(k)]
+    if draw(st.integers(0, 3)) == 0 and k >= 2:
+        names[-1] = names[0]                       # a repeated stored name (as joins, >> and renames produce)
+    kinds = [draw(st.sampled_from(["int", "int", "str", "float"])) for _ in range(k)]
+    el = {"int": st.integers(-3, 9), "str": st.sampled_from(["p", "q", ""]), "float": st.sampled_from([0.5, -1.0, 2.0])}
+    cols = [[draw(st.one_of(el[kd], el[kd], st.none())) for _ in range(n)] for kd in kinds]
+    m = draw(st.integers(1, 2))
+    extra = [[draw(el[kd]) for _ in range(m)] for kd in kinds]          # rows to append, column by column
+    new = [draw(el["int"]) for _ in range(n)]                            # a column to append
+    sl = (draw(st.one_of(st.none(), st.integers(-n - 1, n + 1))), draw(st.one_of(st.none(), st.integers(-n - 1, n + 1))),
+          draw(st.sampled_from([None, None, 1, 2, -1, -2])))
+    mask = [draw(st.booleans()) for _ in range(n)]
+    return {"names": names, "cols": cols, "op": draw(st.sampled_from(STRUCT_OPS)), "extra": extra, "new": new, "new_name": draw(st.sampled_from(STRUCT_NAMES)),
+            "slice": sl, "mask": mask}
+
+
+def run_struct(case, ctx):
+    names, cols, op = case["names"], case["cols"], case["op"]
+    k, n = len(cols), len(cols[0])
+    if n == 0:
+        t = S.Table([S.Vector([], dtype={int: int, str: str, float: float}[type(e[0])], name=nm) for nm, e in zip(names, case["extra"])])
+    else:
+        t = S.Table([S.Vector(list(c), name=nm) for nm, c in zip(names, cols)])
+    if not isinstance(t, S.Table) or check_table(ctx, t, "struct-source"):
+        return
+    before = [[freeze(x) for x in c] for c in cols]
+    fz = lambda cs: [[freeze(x) for x in c] for c in cs]      # noqa: E731
+    ctx.ev()
+    try:
+        if op == "lshift_row":
+            res = t << [e[0] for e in case["extra"]]
+            want = [c + [freeze(e[0])] for c, e in zip(before, case["extra"])]
+        elif op == "lshift_rows":
+            res = t << [list(e) for e in case["extra"]]
+            want = [c + fz([e])[0] for c, e in zip(before, case["extra"])]
+        elif op == "lshift_table":
+            other = S.Table([S.Vector(list(e), name=nm) for nm, e in zip(names, case["extra"])])
+            res = t << other
+            want = [c + fz([e])[0] for c, e in zip(before, case["extra"])]
+        elif op == "rshift_vec":
+            res = t >> S.Vector(list(case["new"]), name=case["new_name"])
+            want = before + fz([case["new"]])
+        elif op == "rshift_dict":
+            if case["new_name"] is None:
+                return
+            res = t >> {case["new_name"]: list(case["new"])}
+            want = before + fz([case["new"]])
+        elif op == "rshift_table":
+            res = t >> S.Table([S.Vector(list(case["new"]), name=case["new_name"]), S.Vector(list(case["new"]), name=names[0])])
+            want = before + fz([case["new"], case["new"]])
+        elif op == "slice":
+            key = slice(*case["slice"])
+            res = t[key]
+            want = [c[key] for c in before]
+        elif op == "mask":
+            res = t[S.Vector(list(case["mask"]))] if n else t[S.Vector([], dtype=bool)]
+            want = [[x for x, f in zip(c, case["mask"]) if f] for c in before]
+        else:
+            if n == 0:
+                return
+            res = t.T.T
+            want = before
+    except Exception as e:  # noqa: BLE001
+        if n == 0 and op.startswith("rshift"):
+            ctx.label("struct_refused_on_empty")
+            return            # appending a column of n=0 values to a zero-row table: nothing to decide
+        return ctx.fail(f"struct/{op}/raised/{type(e).__name__}", f"names {names} cells {cols}: {e}")
+    if not isinstance(res, S.Table):
+        return ctx.fail(f"struct/{op}/result-is-not-a-table", f"names {names} cells {cols}: {type(res).__name__}")
+    if check_table(ctx, res, f"struct-{op}"):
+        return
+    got = fz([list(c) for c in res.cols()])
+    if got != want:
+        rep = "repeated-names" if len(set(names)) < len(names) else "distinct-names"
+        return ctx.fail(f"struct/{op}/cells/{rep}", f"names {names} cells {cols}: got {got}, want {want}")
+    if fz([list(c) for c in t.cols()]) != before:
+        return ctx.fail(f"struct/{op}/source-changed", f"names {names} cells {cols}")
+    ctx.label("repeated_names", int(len(set(names)) < len(names)))
+    if len(set(names)) < len(names) or None in names:
+        ctx.nontrivial()
+
 
 def parts(tier):
     mx = 30 if tier == "quick" else 60
@@ -268,4 +358,6 @@ def parts(tier):
              examples=(2500, 48000), shards=(8, 16), floors={"ragged_inputs": 0.05}),
         Part("direct", run_direct, strategy=lambda t: direct_case(t), examples=(1500, 40000), shards=(2, 16),
              floors={"rejected": 0.1, "empty_table": 0.05}),
+        Part("structure", run_struct, strategy=lambda t: struct_case(t), examples=(2500, 60000), shards=(4, 16),
+             floors={"repeated_names": 0.2}),
     ]
